@@ -78,6 +78,22 @@ pub fn rtv(args: &[&str]) -> String {
         _ => "SKIP".into(),
     }
 }
+/// SERDE <bundle> -> OK x<serde_cbor::to_vec(&bundle) after to_cbor> DECODED OK <bundle> | ERR
+pub fn serde(args: &[&str]) -> String {
+    let mut t = Toks::new(args);
+    match parse_bundle(&mut t) {
+        Some(mut b) if t.done() => {
+            let _ = b.to_cbor();
+            let bytes = serde_cbor::to_vec(&b).expect("Bundle serializes");
+            let dec = match Bundle::try_from(bytes.as_slice()) {
+                Ok(d) => format!("OK {}", show_bundle(&d)),
+                Err(_) => "ERR".into(),
+            };
+            format!("OK {} DECODED {}", show_bytes(&bytes), dec)
+        }
+        _ => "SKIP".into(),
+    }
+}
 /// SPEC <bundle> -> OK x<bytes of to_cbor>   (the model side prints the RFC 9171 specification encoding)
 pub fn spec(args: &[&str]) -> String {
     let mut t = Toks::new(args);
